@@ -491,6 +491,7 @@ func rewriteSelect(st *ast.SelectStmt) []ast.Stmt {
 		ch     ast.Expr
 		lhs    []ast.Expr
 		tok    token.Token
+		send   ast.Expr // non-nil: a send case, the value to send
 	}
 	var cases []cc
 	var def *ast.CommClause
@@ -520,6 +521,9 @@ func rewriteSelect(st *ast.SelectStmt) []ast.Stmt {
 				break
 			}
 			cases = append(cases, cc{clause: cl, ch: u.X, lhs: cm.Lhs, tok: cm.Tok})
+		case *ast.SendStmt:
+			rewriteFuncLits(cm.Value)
+			cases = append(cases, cc{clause: cl, ch: cm.Chan, send: exprOf(replaceInExpr(cm.Value))})
 		default:
 			ok = false
 		}
@@ -538,8 +542,20 @@ func rewriteSelect(st *ast.SelectStmt) []ast.Stmt {
 	vName := func(i int) *ast.Ident { return ast.NewIdent(fmt.Sprintf("__v%d_%d", id, i)) }
 	okName := func(i int) *ast.Ident { return ast.NewIdent(fmt.Sprintf("__ok%d_%d", id, i)) }
 	sel := ast.NewIdent(fmt.Sprintf("__sel%d", id))
+	// comm builds the communication of case i for the try and block phases
+	comm := func(i int) ast.Stmt {
+		if cases[i].send != nil {
+			return &ast.SendStmt{Chan: chName(i), Value: vName(i)}
+		}
+		return &ast.AssignStmt{Lhs: []ast.Expr{vName(i), okName(i)}, Tok: token.ASSIGN, Rhs: []ast.Expr{&ast.UnaryExpr{Op: token.ARROW, X: chName(i)}}}
+	}
 	for i, c := range cases {
 		out = append(out, &ast.AssignStmt{Lhs: []ast.Expr{chName(i)}, Tok: token.DEFINE, Rhs: []ast.Expr{c.ch}})
+		if c.send != nil {
+			// a send case: channel and value are evaluated once, on entry, as the language does
+			out = append(out, &ast.AssignStmt{Lhs: []ast.Expr{vName(i)}, Tok: token.DEFINE, Rhs: []ast.Expr{c.send}})
+			continue
+		}
 		out = append(out, &ast.AssignStmt{Lhs: []ast.Expr{vName(i), okName(i)}, Tok: token.DEFINE, Rhs: []ast.Expr{call("Zero", chName(i))}})
 		out = append(out, &ast.AssignStmt{Lhs: []ast.Expr{ast.NewIdent("_"), ast.NewIdent("_")}, Tok: token.ASSIGN, Rhs: []ast.Expr{vName(i), okName(i)}})
 	}
@@ -549,7 +565,7 @@ func rewriteSelect(st *ast.SelectStmt) []ast.Stmt {
 		trySwitch = append(trySwitch, &ast.CaseClause{
 			List: []ast.Expr{intLit(i)},
 			Body: []ast.Stmt{&ast.SelectStmt{Body: &ast.BlockStmt{List: []ast.Stmt{
-				&ast.CommClause{Comm: &ast.AssignStmt{Lhs: []ast.Expr{vName(i), okName(i)}, Tok: token.ASSIGN, Rhs: []ast.Expr{&ast.UnaryExpr{Op: token.ARROW, X: chName(i)}}},
+				&ast.CommClause{Comm: comm(i),
 					Body: []ast.Stmt{&ast.AssignStmt{Lhs: []ast.Expr{sel}, Tok: token.ASSIGN, Rhs: []ast.Expr{intLit(i)}}}},
 				&ast.CommClause{},
 			}}}},
@@ -563,14 +579,14 @@ func rewriteSelect(st *ast.SelectStmt) []ast.Stmt {
 			&ast.IfStmt{Cond: &ast.BinaryExpr{X: sel, Op: token.GEQ, Y: intLit(0)}, Body: &ast.BlockStmt{List: []ast.Stmt{&ast.BranchStmt{Tok: token.BREAK}}}},
 		}}})
 	if def == nil {
-		var comm []ast.Stmt
+		var comms []ast.Stmt
 		for i := range cases {
-			comm = append(comm, &ast.CommClause{Comm: &ast.AssignStmt{Lhs: []ast.Expr{vName(i), okName(i)}, Tok: token.ASSIGN, Rhs: []ast.Expr{&ast.UnaryExpr{Op: token.ARROW, X: chName(i)}}},
+			comms = append(comms, &ast.CommClause{Comm: comm(i),
 				Body: []ast.Stmt{&ast.AssignStmt{Lhs: []ast.Expr{sel}, Tok: token.ASSIGN, Rhs: []ast.Expr{intLit(i)}}}})
 		}
 		out = append(out, &ast.IfStmt{Cond: &ast.BinaryExpr{X: sel, Op: token.LSS, Y: intLit(0)},
 			Body: &ast.BlockStmt{List: []ast.Stmt{
-				&ast.SelectStmt{Body: &ast.BlockStmt{List: comm}},
+				&ast.SelectStmt{Body: &ast.BlockStmt{List: comms}},
 				yieldStmt(st, "post-select"),
 			}}})
 	}
